@@ -809,7 +809,7 @@ pub fn backend<B: Backend>(opts: &Opts, rep: &mut Report) {
         while len <= 700 {
             for rp in 0..reps {
                 idx += 1;
-                if !opts.mine(idx) {
+                if !opts.mine_sys(idx) {
                     continue;
                 }
                 // RSA-sized material is only interesting near its own length; thin out elsewhere
@@ -853,7 +853,7 @@ pub fn backend<B: Backend>(opts: &Opts, rep: &mut Report) {
     // (iii) degenerate key encodings, through text form and through from_raw_bytes
     for (t, label, raw) in degenerate_keys::<B>() {
         idx += 1;
-        if !opts.mine(idx) {
+        if !opts.mine_sys(idx) {
             continue;
         }
         let s = format!("{}{}", t.header::<B>(), crate::b64::encode(&raw));
@@ -897,7 +897,7 @@ pub fn backend<B: Backend>(opts: &Opts, rep: &mut Report) {
         for off in 0..8usize {
             for ins in ["é", "€", "𝄞"] {
                 idx += 1;
-                if !opts.mine(idx) {
+                if !opts.mine_sys(idx) {
                     continue;
                 }
                 let pos = (hl + off).min(s.len());
